@@ -97,10 +97,9 @@ def readPairs (l : List String) : Option (List (Nat × Nat) × List String) := d
   let ps ← go xs
   some (ps, rest)
 
-def readRpeOpts (l : List String) : Option RpeOpts := do
-  let (c, rest) ← readCommonOpts l
+def readRpeOpts' (c : CommonOpts) (rest : List String) : Option RpeOpts :=
   match rest with
-  | [d, u, t, a, f] =>
+  | [d, u, t, a, f] => do
       let d ← parseRat? d
       let u ← DeltaUnit.ofString? u
       let t ← parseRat? t
@@ -108,5 +107,9 @@ def readRpeOpts (l : List String) : Option RpeOpts := do
       let f ← bool? f
       some ⟨c, d, u, t, a, f⟩
   | _ => none
+
+def readRpeOpts (l : List String) : Option RpeOpts := do
+  let (c, rest) ← readCommonOpts l
+  readRpeOpts' c rest
 
 end Evo
